@@ -167,7 +167,7 @@ def corpus():
 
 
 def check(run: Run, lean: dict) -> int:
-    n = 1200 if run.tier == "quick" else 30000
+    n = run.budget(1200, 30000)
     run.extra["rule"] = (
         "generated data-style trees (elements, comments, PIs, 0-3 attributes, namespaces; leaf texts) x indentation "
         "{' ','  ','\\t','    ',' \\t'} x align_attributes x {root, subtree, document}; parsed or API-built; "
